@@ -63,6 +63,8 @@ def site_project(site, t, with_events=False, style="single", extra_defs=""):
         src.append(rg.struct_src("Holder", [("v", r)]) + rg.command_src("probe", [("h", "Holder")], "Holder"))
     elif site == "channel":
         src.append(rg.command_src("probe", [("id", "i32"), ("on_event", "Channel<%s>" % r)], "i32"))
+    elif site == "channel-only":
+        src.append(rg.command_src("probe", [("app", "AppHandle"), ("on_event", "Channel<%s>" % r)], "i32"))
     elif site == "event":
         src.append("pub fn notify(app: AppHandle, x: %s) {\n    app.emit(\"probe-event\", x).unwrap();\n}\n\n" % r)
     if with_events and site != "event":
@@ -210,6 +212,14 @@ def run(tier):
                 for mode in ("none", "zod"):
                     jobs.append((cli, "%s/%s/%s" % (site, plabel, kind), site_project(site, t, extra_defs=CONTAINER_LIKE_DEFS), mode,
                                  {"site": site, "position": plabel, "kind": "container-like-name", "type": t}))
+    # a project type that ONLY the probed site mentions (nothing else pulls it into types.ts)
+    solo = rg.struct_src("SoloInner", [("n", "i32")]) + rg.struct_src("SoloMsg", [("inner", "SoloInner"), ("items", "Vec<SoloInner>")])
+    for (plabel, pf) in positions[:9]:
+        t = pf(rg.N("SoloMsg"))
+        for site in SITES + ("channel-only",):
+            for mode in ("none", "zod"):
+                jobs.append((cli, "%s/%s/SoloMsg" % (site, plabel), site_project(site, t, extra_defs=solo), mode,
+                             {"site": site, "position": plabel, "kind": "only-reachable-through-this-site", "type": t}))
     # serde tuple structs (struct Id(pub u32); struct Pair(pub i32, pub Foo);) are project-defined serde structs as well
     for kind in TUPLE_NAMES:
         for (plabel, pf) in positions[:8]:
